@@ -230,7 +230,7 @@ func c08Accumulator(p *chk.Prog, r *chk.Report) {
 	x.Check("poolsFor:pool-store", poolLoop.Pos(), len(stores) == 1, "", "expected one pools[p.Name] = pool")
 	for _, s := range stores {
 		m := s.Node.(*ast.AssignStmt).Lhs[0].(*ast.IndexExpr).X
-		x.Check("poolsFor:store:no-duplicate-name", s.Pos(), g.Dominated(s, g.GPat(false, "M[P.Name] != nil", chk.H("M", func(e ast.Expr) bool { return f.SameExpr(e, m) }), chk.H("P", cr))), "", "a second pool with the same name silently replaces the first")
+		x.Check("poolsFor:store:no-duplicate-name", s.Pos(), g.Dominated(s, keyAbsent(f, g, func(e ast.Expr) bool { return f.SameExpr(e, m) }, func(e ast.Expr) bool { return f.MatchWith("P.Name", e, chk.H("P", cr)) != nil })), "", "a second pool with the same name silently replaces the first")
 		why := forallBefore(f, g, cidrLoop, accepted, s)
 		x.Check("poolsFor:store:after-cidr-checks", s.Pos(), why == "", "", "a pool is stored although one of its CIDRs was not checked and accepted (skipped, or the loop left early): "+why)
 	}
@@ -270,9 +270,38 @@ func c08Attach(p *chk.Prog, r *chk.Report) {
 			continue
 		}
 		g := f.Graph()
-		poolMap := isParam(f, "ipPoolMap")
+		// the arguments are recognised by what they are (rooted at a parameter, of the right type), not by position or
+		// name: the resources may arrive one by one or grouped in the ClusterResources value
+		fromParam := func(e ast.Expr) bool {
+			o := f.RootObj(e)
+			if o == nil || f.Type.Params == nil {
+				return false
+			}
+			switch ast.Unparen(e).(type) {
+			case *ast.Ident, *ast.SelectorExpr:
+			default:
+				return false
+			}
+			for _, fld := range f.Type.Params.List {
+				for _, nm := range fld.Names {
+					if f.Info().Defs[nm] == o {
+						return true
+					}
+				}
+			}
+			return false
+		}
+		typeIs := func(e ast.Expr, want string) bool {
+			t := f.Info().TypeOf(e)
+			return t != nil && types.TypeString(t, func(p *types.Package) string { return p.Name() }) == want
+		}
+		poolMap := func(e ast.Expr) bool { return fromParam(e) && typeIs(e, "map[string]*config.Pool") }
+		crList := func(e ast.Expr) bool {
+			return fromParam(e) && (typeIs(e, "[]v1beta1.BGPAdvertisement") || typeIs(e, "[]v1beta1.L2Advertisement"))
+		}
+		poolCRs := func(e ast.Expr) bool { return fromParam(e) && typeIs(e, "[]v1beta1.IPAddressPool") }
 		var advLoop *ast.RangeStmt
-		for _, rs := range f.RangeLoops(isParamIdx(f, 1)) {
+		for _, rs := range f.RangeLoops(crList) {
 			advLoop = rs
 		}
 		if advLoop == nil {
@@ -319,7 +348,7 @@ func c08Attach(p *chk.Prog, r *chk.Report) {
 				ok = ok && !loopSkipsWithout(g, rs, func(n ast.Node) bool { return n == a.Top }, except)
 				x.Check(c.fn+":attach(all):every-pool", rs.Pos(), ok, "", "an advertisement that names no pool is not attached to every pool")
 			} else {
-				sel := definedBy(g, "selectedPools(POOLS, CR.Spec.IPAddressPoolSelectors)", chk.H("POOLS", isParamIdx(f, 0)), chk.H("CR", cr))
+				sel := definedBy(g, "selectedPools(POOLS, CR.Spec.IPAddressPoolSelectors)", chk.H("POOLS", poolCRs), chk.H("CR", cr))
 				ok := f.MatchWith("append(CR.Spec.IPAddressPools, SEL...)", rs.X, chk.H("CR", cr), chk.H("SEL", sel)) != nil
 				name := rangeVal(f, rs)
 				ok = ok && definedBy(g, "M[N]", chk.H("M", poolMap), chk.H("N", name))(pl) && !loopHasBreak(g, rs)
